@@ -22,7 +22,8 @@ RULE = (
     "QuicConnections over a virtual-time network (adversarial phase: drop/duplicate/delay-reorder/blackout/client rebinding; "
     "then a fair phase); 'targeted' cases first record a fault-free run, locate the datagram that carries a chosen frame "
     "(FIN, RESET_STREAM, PATH_RESPONSE, HANDSHAKE_DONE, first flights, ...) and re-run with that datagram duplicated / "
-    "dropped / delayed. non-trivial = at least one datagram was dropped, duplicated or delayed AND at least one stream "
+    "dropped / delayed; 'kuloss' cases let one endpoint update its keys one to three times while everything it sends is lost and "
+    "the peer keeps talking in the previous key phase. non-trivial =at least one datagram was dropped, duplicated or delayed AND at least one stream "
     "delivered its end-of-stream; distinct = hash of (cc, versions, datagram size, bucketed op-kind multiset, bucketed fate multiset)."
 )
 ASSUMPTIONS = [
@@ -48,13 +49,56 @@ def plan(tier, seed):
     out = []
     r = [b for b in batches if b["gen"] == "random"]
     t = [b for b in batches if b["gen"] == "targeted"]
-    while r or t:
+    n_ku = 80 if tier == "quick" else 2000
+    k = [{"gen": "kuloss", "seeds": [base + 800000 + i + j for j in range(per)]} for i in range(0, n_ku, per)]
+    while r or t or k:
         for _ in range(4):
             if r:
                 out.append(r.pop(0))
         if t:
             out.append(t.pop(0))
+        if k:
+            out.append(k.pop(0))
     return out
+
+
+def kuloss_case(seed):
+    """Directed: one endpoint updates its keys (once, twice, three times) while everything it sends is lost for a
+    while and the peer's packets — still protected with the previous generation — keep arriving; then the network
+    is fair. Whatever the endpoint believes about the peer having seen its update must not desynchronise the key
+    phases: everything written is still delivered."""
+    import random
+
+    from ..scenarios import gen_scenario
+
+    rng = random.Random("kuloss/%s" % seed)
+    sc = gen_scenario(seed, harsh=0.0, allow_key_update=False, allow_stop=False)
+    a = rng.choice(["client", "server"])
+    b = "server" if a == "client" else "client"
+    t0 = rng.choice([0.6, 1.0, 1.7])
+    dur = rng.choice([0.2, 0.5, 1.0, 2.5])
+    direction = "c2s" if a == "client" else "s2c"
+    sc["fates"] = {"delay": sc["fates"]["delay"], "adv_seconds": t0 + dur + 0.5, "adv_dgrams": 10**6, "loss": rng.choice([0.0, 0.0, 0.05]),
+                   "blackouts": [[t0 - 0.002, t0 + dur, direction]]}
+    base_a = 0 if a == "client" else 1
+    base_b = 0 if b == "client" else 1
+    script = [o for o in sc["script"] if o["op"] in ("write", "ping") and o["t"] < t0 - 0.1]
+    n_updates = rng.choice([1, 2, 2, 2, 3])
+    times = sorted(rng.random() * dur for _ in range(n_updates - 1))
+    script.append({"t": round(t0, 4), "side": a, "op": "key_update"})
+    script.append({"t": round(t0 + 0.001, 4), "side": a, "op": "write", "sid": base_a + 4 * 60, "n": rng.choice([600, 5000, 30000]), "fin": True})
+    # the peer keeps talking in its old key phase during the blackout
+    for i in range(rng.choice([1, 3, 6])):
+        script.append({"t": round(t0 + dur * (i + 0.5) / 7, 4), "side": b, "op": "write", "sid": base_b + 4 * (61 + i), "n": rng.choice([100, 1500, 4000]), "fin": True})
+    for i, x in enumerate(times):
+        script.append({"t": round(t0 + x, 4), "side": a, "op": "key_update"})
+        script.append({"t": round(t0 + x + 0.001, 4), "side": a, "op": "write", "sid": base_a + 4 * (70 + i), "n": rng.choice([300, 3000]), "fin": True})
+    if rng.random() < 0.5:
+        script.append({"t": round(t0 + dur + rng.choice([0.0, 0.05, 0.4]), 4), "side": rng.choice([a, b]), "op": "key_update"})
+    script.sort(key=lambda o: o["t"])
+    sc["script"] = script
+    sc["horizon"] = t0 + dur + 160.0
+    return sc
 
 
 def build_sim(sc, monitors, tap=False):
@@ -189,6 +233,13 @@ def run_batch(batch):
                 res.sample({"gen": "random", "seed": seed, "opts": sc["opts"], "fates": sc["fates"], "ops": len(sc["script"]),
                             "first_ops": sc["script"][:3], "fate_counts": sim.fates.counts, "bytes_checked": dm.bytes_checked,
                             "streams_ended": dm.end_events, "virtual_end": round(sim.now, 2)}, limit=2)
+        elif batch["gen"] == "kuloss":
+            sc = kuloss_case(seed)
+            sim, dm, ok = run_scenario(sc, res, {"gen": "kuloss", "seeds": [seed]})
+            res.count("kuloss_cases")
+            if ok:
+                res.sample({"gen": "kuloss", "seed": seed, "fates": sc["fates"], "key_updates": sum(1 for o in sc["script"] if o["op"] == "key_update"),
+                            "bytes_checked": dm.bytes_checked, "streams_ended": dm.end_events}, limit=1)
         else:
             targeted_case(seed, res)
     res.count("cpu_s", round(time.time() - t0, 2))
